@@ -743,8 +743,9 @@ class Problem:
             and np.all(np.isfinite(self._bounds.xu))
         )
         if scale:
-            self._scaling_factor = 0.5 * (self._bounds.xu - self._bounds.xl)
-            self._scaling_shift = 0.5 * (self._bounds.xu + self._bounds.xl)
+            # Halve the bounds before combining them, to avoid overflows.
+            self._scaling_factor = 0.5 * self._bounds.xu - 0.5 * self._bounds.xl
+            self._scaling_shift = 0.5 * self._bounds.xu + 0.5 * self._bounds.xl
             self._bounds = BoundConstraints(
                 Bounds(-np.ones(self.n), np.ones(self.n))
             )
